@@ -84,6 +84,16 @@ pub fn grid(thorough: bool) -> Vec<GridNum> {
     ] {
         g.push(real(t));
     }
+    // neighbours: the binary32 numbers one unit in the last place above some grid reals (written
+    // with their shortest round-trip spelling); equal under no comparison, ordered under all
+    for t in ["0.1", "1.5", "-2.5", "7.25", "1e10"] {
+        let x: f32 = t.parse().unwrap();
+        let up = f32::from_bits(if x > 0.0 { x.to_bits() + 1 } else { x.to_bits() - 1 });
+        let text = format!("{:?}", up);
+        if !g.iter().any(|y: &GridNum| y.text == text) {
+            g.push(real(&text));
+        }
+    }
     if thorough {
         for i in 4..=12i128 {
             for s in [1, -1] {
